@@ -224,8 +224,8 @@ TABLE = [
          sentence="Length of SNAP parameter must be equal to cutoff",
          # NOTE (lead): a theta SHORTER than the cutoff is the violation.  Since the /repo fix "SNAP is not
          # refused on post-measurement branches whose cutoff was reduced" a longer theta is valid (only the
-         # first `cutoff` entries are used), so the mutation must shorten it.
-         make=lambda d, c: {"cls": "SNAP", "modes": [0], "kw": {"theta": {"$": "snap", "k": max(c - 1, 0)}}}),
+         # first `cutoff` entries are used), so the mutation must shorten it; an EMPTY theta is invalid on every branch, whatever cutoff a preceding measurement leaves.
+         make=lambda d, c: {"cls": "SNAP", "modes": [0], "kw": {"theta": {"$": "snap", "k": 0}}}),
 ]
 
 
